@@ -14,6 +14,8 @@ import SameVerif.Spec.OracleSig
 import SameVerif.Model.Receiver
 import SameVerif.Model.Iterator
 import SameVerif.Model.Builder
+import SameVerif.Model.App
+import SameVerif.Spec.OracleApp
 import Driver.Util
 /-
   samemodel: the executable side of the correspondence check.
@@ -509,6 +511,37 @@ def oracleC13 (n : Nat) (ref : List RefEv) (sched : List (Nat × String)) (calls
   if cursor != ref.length then return some s!"{ref.length - cursor} events of the one-shot trace were never returned"
   return none
 
+-- ---------------------------------------------------------------- samedec app (C11, C12, C19)
+def parseAMsg (w : String) : Option AMsg :=
+  if w == "E" then some .eom
+  else if w.startsWith "S" then (unhex (w.drop 1).toString).map (fun b => .som (bytesToNats b))
+  else none
+
+def showAMsg : AMsg → String
+  | .eom => "E"
+  | .som t => s!"S{hexOf (natsToBytes t)}"
+
+def parseAppInput (n live flushed : String) : Option AppInput := do
+  let n ← kv n "n"
+  let live ← kvs live "live"
+  let flushed ← kvs flushed "flushed"
+  let l ← if live == "-" then some [] else (live.splitOn ",").mapM (fun w =>
+    match w.splitOn ":" with
+    | [t, m] => do let t ← t.toNat?; let m ← parseAMsg m; pure (t, m)
+    | _ => none)
+  let f ← if flushed == "-" then some [] else (flushed.splitOn ",").mapM parseAMsg
+  pure ⟨n, l, f⟩
+
+def showList (xs : List String) : String := if xs.isEmpty then "-" else ",".intercalate xs
+
+def parsePrinted (w : String) : Option (List AMsg) × Bool :=
+  if w == "-" then (some [], false)
+  else
+    let toks := w.splitOn ","
+    match toks.mapM parseAMsg with
+    | some ms => (some ms, false)
+    | none => (some (toks.filterMap parseAMsg), true)
+
 def vote3hash (lo hi : Nat) : UInt64 := Id.run do
   let mut h := fnvInit
   for i in [lo:hi] do
@@ -532,8 +565,6 @@ def vote2hash (lo hi : Nat) : UInt64 := Id.run do
 inductive Ans where
   | none | eom | err (k : String) | som (text : List Byte) (off par vot : Nat) | other (s : String)
 
-def kv (s key : String) : Option Nat :=
-  if s.startsWith (key ++ "=") then (s.drop (key.length + 1)).toString.toNat? else none
 
 def parseAns (ws : List String) : Ans :=
   match ws with
@@ -597,8 +628,6 @@ def parseSigEvs (ans : List String) : Option (List Spec.SigEv) :=
 
 def toSBurst (b : ScBurst) : Spec.SBurst := ⟨b.role, b.bytes, b.t, b.busy⟩
 
-def kvs (s key : String) : Option String :=
-  if s.startsWith (key ++ "=") then some (s.drop (key.length + 1)).toString else none
 
 def parseHdrAns (ws : List String) : Spec.HdrVerdictIn :=
   match ws with
@@ -807,6 +836,60 @@ def handleSpec (name : String) (ins ans : List String) : String :=
         | _, _ => "FAIL unparsable"
       | _, _ => "FAIL unparsable"
     | _ => "bad-op"
+  | "spec.c11", [_label, n, live, flushed, quiet] =>
+    match parseAppInput n live flushed, ans with
+    | some inp, [printed] =>
+      match parsePrinted printed with
+      | (some ms, garbage) => optVerdict (Spec.oracleC11 inp (quiet == "quiet=1") ms garbage)
+      | _ => "FAIL unparsable"
+    | _, _ => "FAIL unparsable"
+  | "spec.c12", [_label, n, live, flushed, rate] =>
+    match parseAppInput n live flushed, kv rate "rate", ans with
+    | some inp, some rate, [kids, envs] =>
+      let kidsP : Option (List (AMsg × Nat × Nat × Bool)) :=
+        if kids == "-" then some [] else (kids.splitOn ",").mapM (fun w =>
+          match w.splitOn ":" with
+          | [m, a, b] => do let m ← parseAMsg m; let a ← a.toNat?; let b ← b.toNat?; pure (m, a, b, false)
+          | [m, a, b, _bad] => do let m ← parseAMsg m; let a ← a.toNat?; let b ← b.toNat?; pure (m, a, b, true)
+          | _ => none)
+      let envsP : Option (List (List (String × List Nat))) :=
+        match kvs envs "env" with
+        | some "-" => some []
+        | some e => (e.splitOn ",").mapM (fun one => (one.splitOn "/").mapM (fun kvh =>
+            (unhex kvh).map (fun b =>
+              let line := bytesToNats b
+              let k := line.takeWhile (· != 61)
+              (String.ofList (k.map Char.ofNat), (line.dropWhile (· != 61)).drop 1))))
+        | none => none
+      match kidsP, envsP with
+      | some kidsP, some envsP =>
+        match Spec.oracleChildren inp kidsP with
+        | some e => s!"FAIL {e}"
+        | none =>
+          if envsP.length != kidsP.length then "FAIL environment dumps and children differ in number"
+          else
+            optVerdict ((kidsP.zip envsP).findSome? (fun (k, env) => match k.1 with
+              | .som t => Spec.oracleEnv rate t env
+              | .eom => some "child spawned for an EndOfMessage"))
+      | _, _ => "FAIL unparsable"
+    | _, _, _ => "FAIL unparsable"
+  | "spec.c17.opts", [_opts] =>
+    match ans with
+    | [exit, printed, expected] =>
+      if exit != "exit=0" then s!"FAIL samedec aborted with a documented option value: {exit}"
+      else if (kvs printed "printed").isNone || (kvs expected "expected_default").isNone then "FAIL unparsable"
+      else "ok"
+    | _ => "FAIL unparsable"
+  | "spec.c19", [_label] =>
+    match ans with
+    | [exit, wall, printed, ncExit, nochild] =>
+      if exit != "exit=0" then s!"FAIL samedec did not exit normally with a misbehaving child: {exit}"
+      else if ncExit != "nochild_exit=0" then "FAIL the run without a child failed"
+      else if (kvs printed "printed") != (kvs nochild "nochild") then "FAIL printed messages differ from the run without a child"
+      else match kv wall "wall_ms" with
+        | some ms => if ms > 30000 then "FAIL samedec took more than 30 s (hang)" else "ok"
+        | none => "FAIL unparsable"
+    | _ => "FAIL unparsable"
   | "spec.c17.run", _label :: _op =>
     match ans with
     | "ok" :: _ => "ok"
@@ -882,6 +965,12 @@ def handleOp (args : List String) : String :=
     match unhex seed, pos.toNat? with
     | some seed, some pos => s!"{(hdrnbhd seed pos).toNat}"
     | _, _ => "bad-op"
+  | ["app.run", n, live, flushed, quiet, child, _spawn] =>
+    match parseAppInput n live flushed with
+    | some inp =>
+      let out := appRun ⟨quiet == "quiet=1", child == "child=1"⟩ (fun _ => true) inp
+      s!"printed={showList (out.printed.map showAMsg)} children={showList (out.children.map (fun (m, a, b) => s!"{showAMsg m}:{a}:{b}"))} exit=0"
+    | none => "bad-op"
   | ["cfg.derive", rate, micro, en, ff, fb] =>
     match rate.toNat?, micro.toNat?, ff.toNat?, fb.toNat? with
     | some rate, some micro, some ff, some fb =>
